@@ -199,16 +199,19 @@ def run_minimal(spec, rec, rng):
                 continue
             minimal_form(e, core, rng, rec, dict(extractor=idx))
             got += 1
-        for _ in range(spec["k"] * 12 if got < spec["k"] else 0):
+        # random members on top: at least one member per extractor on the quick tier, k * 4 further random
+        # members on the thorough tier (branch coverage stops as soon as every alternative was taken)
+        want = got + spec["k"] * 4 if spec["k"] > 1 else spec["k"]
+        for _ in range(spec["k"] * 12 if got < want else 0):
             try:
-                core = sample(body, rng, e.flags, maxrep=2)
+                core = sample(body, rng, e.flags, maxrep=3 if spec["k"] > 1 else 2)
             except Exception:
                 break
             if "\n" in core or not rx.fullmatch(core):
                 continue
             minimal_form(e, core, rng, rec, dict(extractor=idx))
             got += 1
-            if got >= spec["k"]:
+            if got >= want:
                 break
         if not got:
             rec.count("extractor_without_member")
